@@ -263,12 +263,20 @@ func (a *Annotations) parseFile(path, pkg string) error {
 			a.structs[cs.key] = cs
 			cf = nil
 		case "func":
-			cf = newFuncContract(pkg, rest, relfile, ln)
-			a.funcs[pkg+":"+rest] = cf
+			if old, ok := a.funcs[pkg+":"+rest]; ok {
+				cf = old // several blocks for one function are merged
+			} else {
+				cf = newFuncContract(pkg, rest, relfile, ln)
+				a.funcs[pkg+":"+rest] = cf
+			}
 			cs = nil
 		case "interface":
-			cf = newFuncContract(pkg, rest, relfile, ln)
-			a.ifaces[pkg+"."+rest] = cf
+			if old, ok := a.ifaces[pkg+"."+rest]; ok {
+				cf = old
+			} else {
+				cf = newFuncContract(pkg, rest, relfile, ln)
+				a.ifaces[pkg+"."+rest] = cf
+			}
 			cs = nil
 		case "lemma":
 			a.lemmas = append(a.lemmas, sl)
